@@ -72,7 +72,8 @@ def alphabet(fns, quick, reduced=False):
                ("set_MSm_pole", 1, 0), ("set_mq2", 2, 2)]
     if reduced:
         setters = setters[:7]
-    ops = [("init_gm2calc", "-1"), ("init_slha", "-2"), ("free_null", "-3"), ("init_slha_slow_convergence", "-4")]
+    ops = [("init_gm2calc", "-1"), ("init_slha", "-2"), ("free_null", "-3"), ("init_slha_slow_convergence", "-4"),
+           ("init_refused_tachyon", "-5"), ("init_refused_negative_soft_mass", "-6")]
     for nm, i, k in setters:
         if nm in fid:
             for v in vals:
@@ -150,7 +151,7 @@ def run(ctx):
     frontier = [()]      # sequences (tuples of (label, token))
     seen_hash = set()
     sample_done = 0
-    for d in range(1, depth + (1 if ctx.quick else 2)):
+    for d in range(1, depth + 2):        # the last level uses the reduced alphabet (quick: level 3, thorough: level 4)
         alpha = ops if d <= depth else red
         if d > depth:
             # extension level on the reduced alphabet, only from states reached through the reduced alphabet
@@ -196,6 +197,11 @@ def run(ctx):
                 for force in (0, 1):
                     for running in ((0, 1) if not ctx.quick else (1,)):
                         cases.append((gauge, yt, 0, 0, 0, 0, pset, force, running, pset % 2))
+        # boundary values of the validated inputs (psets 10..24, see fill_mass / fill_gauge in the harness)
+        for pset in (range(10, 25) if gauge == 0 else (16, 17)):
+            for yt in (2, 5):
+                for force in (0, 1):
+                    cases.append((gauge, yt, 0, 0, 0, 0, pset, force, 1, 0))
         for smnull, cfgnull, bnull, outnull in [(1, 0, 0, 0), (0, 1, 0, 0), (0, 0, 1, 0), (0, 0, 0, 1), (1, 1, 1, 0), (1, 1, 1, 1)]:
             for yt in (2, 0):
                 cases.append((gauge, yt, smnull, cfgnull, bnull, outnull, 0, 0, 1, 0))
